@@ -35,12 +35,13 @@ class Event:
     async def event_listener(cls, event):
         """Listen callback for given event which updates any notifications."""
 
+        # the event's data, then the trigger's own arguments: a data key of the same name does not replace them
         func_args = {
+            **event.data,
             "trigger_type": "event",
             "event_type": event.event_type,
             "context": event.context,
         }
-        func_args.update(event.data)
         await cls.update(event.event_type, func_args)
 
     @classmethod
